@@ -45,6 +45,22 @@ def make_move(cfg, rng, tree_dist):
 
         kernel = prun.setup_kernel(outlier_prior, proposal, rng, tree_dist)
         samplers = prun.setup_samplers(kernel, N, outlier_prior, thr, rng, tree_dist)
+        if move == "sweep":
+            # one iteration of the run loop's own sweep (whole-tree or subtree update, data-point sweep, prune-regraft,
+            # relabel, trace append), concentration update off
+            from phyclone.tree import Tree
+            from phyclone.utils import Timer
+
+            def sweep(tree):
+                import contextlib
+                import io
+
+                with contextlib.redirect_stdout(io.StringIO()):
+                    res = prun._run_main_sampler(False, None, float("inf"), 1, 1, 1, 1000, samplers, ["s"], 1, Timer(), tree,
+                                                 tree_dist, 0, rng, cfg.get("subtree_update_prob", 0.0))
+                return Tree.from_dict(res["trace"][-1]["tree"])
+
+            return sweep, kernel
         return {
             "pg": samplers.tree_sampler.sample_tree,
             "subtree": samplers.subtree_sampler.sample_tree,
